@@ -66,6 +66,7 @@ class Interp:
         self.s = lib.mk_scheme(self.scheme)
         self.snap0 = snapshot(self.d, self.s)
         self.consensus = []
+        self.instances = {}
         self.steps = 0
         self.runs = []
 
@@ -79,9 +80,17 @@ class Interp:
             raise Violation("inputs were modified by %s: changed %s; before %s after %s" % (
                 after, diff, {k: self.snap0[k] for k in diff}, {k: now[k] for k in diff}))
 
-    def _run(self, op, d, s):
+    def _run(self, op, d, s, shared=False):
         with configs.solver_env(op["env"]):
-            alg = configs.BY_NAME[op["config"]].factory()
+            if shared:
+                # on the shared side the algorithm OBJECT is shared too: one instance per configuration for the whole
+                # history (state kept inside an algorithm instance must not leak from one run to the next)
+                key = (op["config"], op["env"])
+                if key not in self.instances:
+                    self.instances[key] = configs.BY_NAME[op["config"]].factory()
+                alg = self.instances[key]
+            else:
+                alg = configs.BY_NAME[op["config"]].factory()
             random.seed(op["rng"])
             try:
                 with lib.quiet():
@@ -95,7 +104,7 @@ class Interp:
         self.steps += 1
         kind = op["op"]
         if kind == "run":
-            st1, c1 = self._run(op, self.d, self.s)
+            st1, c1 = self._run(op, self.d, self.s, shared=True)
             self.check_unchanged("running %s" % op["config"])
             fd, fs = self.fresh()
             st2, c2 = self._run(op, fd, fs)
@@ -107,7 +116,7 @@ class Interp:
                     raise Violation("%s on shared objects after %d earlier step(s) returned %s, on fresh copies %s" % (
                         op["config"], self.steps - 1, v1, v2))
                 if not configs.BY_NAME[op["config"]].rng:
-                    st3, c3 = self._run(op, self.d, self.s)
+                    st3, c3 = self._run(op, self.d, self.s, shared=True)
                     if st3 != "ok" or cons_view(c3) != v1:
                         raise Violation("%s called twice on the same inputs: %s then %s" % (
                             op["config"], v1, cons_view(c3) if c3 is not None else st3))
